@@ -12,7 +12,7 @@ LEVEL = 'exploration'
 TIERS = {'quick': 5000, 'thorough': 200000}
 RULE = ('two families, each through the real TcpTransport (on simulated socket+select modules) and the real TcpTransportAsync (real asyncio streams and '
         'async_timeout on a simulated asyncio.Transport): (a) transport scripts against a raw byte peer that writes seeded chunks with pauses: reads of '
-        'seeded sizes and timeouts (None with data eventually arriving, small), writes against small send buffers and a slow reader, EOF, a peer reset (RST) followed by close() and connect(), close twice, '
+        'seeded sizes and timeouts (None with data eventually arriving, small), writes against small send buffers and a slow reader (also while the bytes of the peer are still unread; a write that times out does so not before its timeout), EOF, a peer reset (RST) followed by close() and connect(), close twice, '
         'reconnect, and (sync) a second TcpTransport object of the same process with its own peer used between those calls; oracles: each read returns <= n bytes, the concatenation of reads equals the peer\'s bytes in order, an empty wire raises '
         'TcpTimeoutException not before the timeout and later data still arrives, bytes reported as written reach the peer in order; (b) whole device '
         'sessions (connect, shell, list, stat, pull, push) over TCP compared with ground truth and with the same session over the in-memory transport. '
@@ -20,7 +20,7 @@ RULE = ('two families, each through the real TcpTransport (on simulated socket+s
         'distinct = event-log digests')
 ASSUMPTIONS = ['the deciding runs use a model of the kernel endpoint (real sockets cannot be replayed); the model is compared with the loopback stack by ./check selftest-sockmodel, outside the registered checks',
                'real: TcpTransport, TcpTransportAsync, asyncio.StreamReader/StreamWriter/StreamReaderProtocol, async_timeout']
-EXPECT_PROBES = {'all': ['c18_script', 'c18_session', 'c18_timeout_seen', 'c18_short_read', 'c18_reconnect', 'c18_double_close', 'short_writes', 'backpressure_pause', 'c18_peer_reset', 'peer_eof', 'c18_poll_with_data', 'c18_sibling_transport']}
+EXPECT_PROBES = {'all': ['c18_script', 'c18_session', 'c18_timeout_seen', 'c18_short_read', 'c18_reconnect', 'c18_double_close', 'short_writes', 'backpressure_pause', 'c18_peer_reset', 'peer_eof', 'c18_poll_with_data', 'c18_sibling_transport', 'c18_write_timeout_with_unread_input']}
 REAL_VS_STUB = {'real': ['adb_shell.transport.tcp_transport.TcpTransport', 'adb_shell.transport.tcp_transport_async.TcpTransportAsync', 'asyncio streams + async_timeout',
                          'adb_shell.adb_device[_async] (session family)'],
                 'stub': ['kernel socket + select (simadb.simsock)', 'asyncio.Transport + event loop selector (simadb.simsock / aioloop)', 'peer: raw byte script or adbd model', 'clock']}
@@ -42,6 +42,11 @@ def gen_script(g):
         # a poll: everything the peer wrote has arrived long ago, the read is given a timeout of 0 -- it returns what is there
         ops.append({'op': 'sleep', 'dt': sum(c[0] for c in chunks) + 5.0})
         ops.append({'op': 't_read', 'n': g.pick([1, 24, 4096]), 'timeout': 0, 'poll_with_data': True})
+    if g.chance(0.25):
+        # writes while the peer's bytes are still unread: a full send buffer and a readable socket at the same time
+        ops.append({'op': 'sleep', 'dt': g.pick([0.01, 3.0])})
+        for _ in range(g.int(2, 3)):
+            ops.append({'op': 't_write', 'content': {'seed': g.int(0, 999), 'size': g.pick([5000, 70000]), 'alpha': 'bin'}, 'timeout': g.pick([0.5, 1.0]), 'early': True})
     # reads: enough to drain everything, with timeouts smaller than some pauses
     want = total
     guard = 0
@@ -243,6 +248,8 @@ def eval_script(case, tapes, out):
                 flushed = False
             elif r['exc'] != 'TcpTimeoutException':
                 probs.append(O.P('wrong-exception', 'op#%d bulk_write raised %s: %s' % (i, r['exc'], r.get('msg'))))
+            elif op.get('timeout') and r['t1'] - r['t0'] < op['timeout'] - 1e-6:
+                probs.append(O.P('timeout-early', 'op#%d bulk_write(%d bytes, %r) raised TcpTimeoutException after %.6f virtual s' % (i, len(data), op['timeout'], r['t1'] - r['t0'])))
             elif unknown is None:
                 unknown = data      # a raising write may have delivered any prefix; later writes are not comparable
     if not run.abort:
@@ -304,6 +311,8 @@ def eval_script(case, tapes, out):
         tried = sum(1 for r in recs[last_connect_idx + 1:] if r['spec']['op'] == 't_read' and not r.get('skipped'))
         if len(sessions[-1]) == 0 and len(sess_bytes) > 0 and tried >= 2:
             probs.append(O.P('reconnect-failed', 'after the peer reset the connection, close() and connect() returned normally but nothing can be read from the new connection'))
+    if any(r['spec'].get('early') and not r['ok'] and r.get('exc') == 'TcpTimeoutException' for r in recs):
+        pr['c18_write_timeout_with_unread_input'] = 1
     if tmo:
         pr['c18_timeout_seen'] = 1
     if short:
